@@ -773,6 +773,22 @@ impl PartialEq for Plain {
         self.val == other.val
     }
 }
+impl PartialOrd for Plain {
+    fn partial_cmp(&self, other: &Plain) -> Option<std::cmp::Ordering> {
+        Some(self.cmp(other))
+    }
+}
+impl Eq for Plain {}
+impl Ord for Plain {
+    fn cmp(&self, other: &Plain) -> std::cmp::Ordering {
+        let a = with(|l| l.on_touch(EV_EQ, "cmp", self.id, self.val));
+        let b = with(|l| l.on_touch(EV_EQ, "cmp", other.id, other.val));
+        if a || b {
+            std::panic::panic_any(Injected);
+        }
+        self.val.cmp(&other.val)
+    }
+}
 impl Hash for Plain {
     fn hash<H: Hasher>(&self, state: &mut H) {
         if with(|l| l.on_touch(EV_HASH, "hash", self.id, self.val)) {
